@@ -103,4 +103,4 @@ def w_state(num_qubits: int, coeff: list[int] = None) -> np.ndarray:
         # The position for an excitation on qubit i is at index 2**i.
         # We assign the coefficient to the position corresponding to an excitation in that qubit.
         ret_w_state[2**i] = coeff[num_qubits - i - 1]
-    return np.around(ret_w_state, 4)
+    return ret_w_state
